@@ -59,6 +59,9 @@ def _fault(seam, counter):
         kind = f["kind"]
         if kind.endswith("valueerror"):
             raise ValueError("simulated %s failure #%d" % (seam, n))
+        if kind.endswith("runtimeerror") and n % 2:
+            # (raised with the class only: an exception without arguments)
+            raise RuntimeError
         if kind.endswith("runtimeerror"):
             raise RuntimeError("simulated %s failure #%d" % (seam, n))
         if "-foreign-" in kind:
@@ -70,6 +73,8 @@ def _fault(seam, counter):
             raise exc
         if kind.endswith("abort"):
             from zcsim.world import SimAbort
+            if n % 2:
+                raise SimAbort()
             raise SimAbort("simulated interruption in %s call #%d"
                            % (seam, n))
         raise AssertionError("unknown callback fault %r" % kind)
